@@ -119,6 +119,7 @@ pub fn run_execution<R: Send + 'static>(
         net::reset(knobs.net.clone());
         pipe::reset();
         probe::reset();
+        mos_simrt::std_shim::sync::atomic::reset_process_globals();
         HIST.with(|h| h.borrow_mut().clear());
         let slot: Arc<StdMutex<Option<R>>> = Arc::new(StdMutex::new(None));
         let slot2 = slot.clone();
